@@ -552,11 +552,31 @@ func c14ClientHeader(c *core.Ctx, serverKey string) {
 		why = gated
 	}
 	nUses := 0
+	fallbackBad := ""
 	checkUse := func(v ssa.Value, what string) {
 		nUses++
 		if !parsedWins(v, conv) {
 			okAll = false
 			why = what + " is given a code that can bypass the parsed header value"
+		}
+		// without a (parsable) header the code is the HTTP status mapped by the fallback table — for every status
+		for _, o := range core.Origins(v) {
+			if o == conv {
+				continue
+			}
+			call, _, isCall := core.CallResult(o)
+			if isCall && call == parse {
+				continue
+			}
+			if isCall {
+				ci := core.InfoOf(&call.Call)
+				if ci.Static != nil && core.PkgIs(ci.Static, "httpgrpc") && core.TypeStr(ci.Static.Signature.Results().At(0).Type()) == codesPkg+".Code" && len(call.Call.Args) == 1 {
+					if _, f, ok := core.FieldOf(call.Call.Args[0]); ok && f == "StatusCode" {
+						continue
+					}
+				}
+			}
+			fallbackBad = fmt.Sprintf("%s can receive a code (%s) that is neither the parsed header value nor the fallback table applied to reply.StatusCode", what, core.ValName(o))
 		}
 	}
 	core.Instrs(dec, func(in ssa.Instruction) {
@@ -582,6 +602,8 @@ func c14ClientHeader(c *core.Ctx, serverKey string) {
 		why = "no construction of the returned status from a code found"
 	}
 	c.Check(okAll, name+":parsed-wins", parse.Pos(), why, why)
+	c.Check(fallbackBad == "", name+":fallback-for-every-status", parse.Pos(), "without a usable status header the code is the fallback table applied to reply.StatusCode, unconditionally (the table is total: C14/R2)",
+		fallbackBad+": a reply without the status header (a proxy's 302, a 1xx) would be classified without the fallback table — possibly as OK")
 	// parsed value assigned under err == nil
 	guarded := core.GuardedBy(conv.(ssa.Instruction), func(f core.Fact) bool {
 		return f.Op == token.EQL && core.IsNilConst(f.Y) && core.OriginIs(f.X, func(o ssa.Value) bool { cr, idx, ok := core.CallResult(o); return ok && cr == parse && idx == 1 })
